@@ -688,6 +688,7 @@ FIRST = "self._Process__first_iteration"
 MPB = "self.method.task.problem"
 MSD = "self.method.searchData"
 MSOL = MSD + ".solution"
+MQ = MSD + "._RGlobalQueue._CharacteristicsQueue__baseQueue"
 LIS = "self._Process__listeners"
 W = "world()"
 
@@ -843,7 +844,16 @@ def solve_loop():
         "%s.gcalls - old(%s.gcalls) == %s.gevals - old(%s.gevals)" % (MPB, MPB, MPB, MPB),
         "%s.gtn >= old(%s.gtn)" % (W, W)],
         modifies=do_global_iteration().modifies + ["%s.stop" % MT],
-        variant="self.parameters.itersLimit - %s.iterationsCount" % MT)
+        variant="self.parameters.itersLimit - %s.iterationsCount" % MT,
+        # C11: Solve is nothing but "iterate while the criterion does not hold" - what precedes the loop leaves the whole
+        # search state as it found it (so Solve after k batched iterations continues exactly like more batches would)
+        ghost_before=["assert %s.recalc == old(%s.recalc) and %s.best is old(%s.best) and %s.iterationsCount == old(%s.iterationsCount) "
+                      "and %s == old(%s)" % (MT, MT, MT, MT, MT, MT, FIRST, FIRST),
+                      "assert %s.M[0] == old(%s.M[0]) and %s.Z[0] == old(%s.Z[0]) and %s.solutionAccuracy == old(%s.solutionAccuracy)"
+                      % (MT, MT, MT, MT, MSOL, MSOL),
+                      "assert %s.gn == old(%s.gn) and %s.gseq == old(%s.gseq) and %s.glen == old(%s.glen) and "
+                      "%s.gitems == old(%s.gitems) and %s.gkeys == old(%s.gkeys)"
+                      % (MSD, MSD, MSD, MSD, MQ, MQ, MQ, MQ, MQ, MQ)])
 
 
 def stop_listener_loop():
